@@ -10,7 +10,7 @@ import common  # noqa: E402
 
 
 def main():
-    ob = json.loads((common.LEAN / "obligations.json").read_text())
+    ob = {f.stem: json.loads(f.read_text()) for f in sorted((common.LEAN / "obligations").glob("C*.json"))}
     targets = []
     for prop, o in sorted(ob.items()):
         try:
